@@ -124,7 +124,14 @@ func runC05(cs c05Case) *Outcome {
 				// bounds
 				intrinsic, ierr := core.IntrinsicGas(tx.Data(), tx.AccessList(), tx.To() == nil, true, true)
 				if ierr == nil && gasUsed < intrinsic && !tr.Receipt.HasVMError {
-					o.dev("", "b%d t%d: gas used %d below intrinsic gas %d", bi, ti, gasUsed, intrinsic)
+					// listed finding D23: the storage refund (at most 1/5 of the gas consumed, which is >= intrinsic) is
+					// subtracted after execution, so the reported figure can end up in [4/5 intrinsic, intrinsic) exactly as
+					// in go-ethereum; anything lower cannot be explained by the refund
+					key := ""
+					if gasUsed*5 >= intrinsic*4 {
+						key = "D23-gas-used-below-intrinsic-after-refund"
+					}
+					o.dev(key, "b%d t%d: gas used %d below intrinsic gas %d", bi, ti, gasUsed, intrinsic)
 				}
 				if gasUsed > tx.Gas() {
 					o.dev("", "b%d t%d: gas used %d above gas limit %d", bi, ti, gasUsed, tx.Gas())
